@@ -10,6 +10,7 @@
   ParseError names the file and the 1-based line.
 -/
 import RV.Driver.C16
+import RV.Model.DictParserIO
 namespace RV.Driver
 open RV RV.Dict RV.DictParser
 
@@ -93,5 +94,110 @@ def c15 (op : String) (args : List String) (impl : String) : Verdict :=
       mk impl model (base ++ specCl)
     | _, _ => bad "fs"
   | _, _ => bad s!"op:{op}"
+
+/-! ### walkio: files whose reader or whose `Close` fails (RV.Model.DictParserIO)
+
+  op  walkio <fs> <root> <ign> <chunk>    fs = `namehex:texthex:flags,…`, flags = 1 readFails + 2 closeFails;
+                                          chunk = size of the reader's chunks in the harness (the model has none)
+  result  as for walk, plus  err Read - 0 - <trace>   and   err Close <filehex> <line> <namehex> <trace>
+  Model = `parseFileIO Cfg.tree`.  Oracle, on the implementation's own observation:
+    * no crash, terminates, every opened file is closed (the trace);
+    * ok ⇒ no file that was opened has a failing reader, none that was opened for an include a failing
+      `Close` (no failure is swallowed);
+    * Read ⇒ the error is bare (no file, no line) and some opened file has a failing reader;
+    * Close ⇒ it names a file of the file system and a line of it, counted from 1, that reads
+      `$INCLUDE <name>`, and <name> was opened and has a failing `Close`;
+    * every other outcome is judged as `walk` judges it on the same files without flags: failures of
+      readers and of `Close` can only cut the walk short, with one of the two classes above. -/
+
+def parseFSIO (s : String) : Option FSIO :=
+  if s == "-" then some [] else
+  (s.splitOn ",").mapM fun e =>
+    match e.splitOn ":" with
+    | [n, t, f] => do
+      let n ← unhex n
+      let t ← unhex t
+      let f ← f.toNat?
+      if f > 3 then none else pure (n, t, f % 2 == 1, f / 2 == 1)
+    | _ => none
+
+/-- the `walk` argument for the same files without their flags -/
+def eraseFSArg (s : String) : String :=
+  if s == "-" then "-" else
+  ",".intercalate ((s.splitOn ",").map fun e => ":".intercalate ((e.splitOn ":").take 2))
+
+def failurePartsIO : FailureIO → String × Option Bytes × Nat × Option Bytes
+  | .base e => failureParts e
+  | .readErr => ("Read", none, 0, none)
+  | .closeErr f l n => ("Close", some f, l, some n)
+
+def showResult15IO (r : ResultIO) : String :=
+  let trace := joinOr "," (r.2.log.map showEvent)
+  match r with
+  | (none, st) => s!"ok {showDict st.dict} {trace}"
+  | (some (.base .outOfFuel), _) => "DEPTH-EXCEEDED"
+  | (some e, _) => let p := failurePartsIO e; s!"err {p.1} {optHex p.2.1} {p.2.2.1} {optHex p.2.2.2} {trace}"
+
+/-- line `l` (decimal, 1-based) of the file `f` (hex) reads `$INCLUDE <d>`; true where the property's
+    wording does not say how the text splits into lines and words -/
+def lineIsInclude (fs : FSIO) (f l d : String) : Bool :=
+  match fs.find? (fun e => hexOf e.1 == f), l.toNat? with
+  | some e, some (k + 1) =>
+    if (DSpec.unspecifiedText e.2.1).isSome then true else
+    match (DSpec.physLines e.2.1)[k]? with
+    | some line =>
+      match DSpec.tokens line with
+      | [kw, n] => kw == DSpec.str "$INCLUDE" && hexOf n == d
+      | _ => false
+    | none => false
+  | _, _ => false
+
+def c15io (args : List String) (impl : String) : Verdict :=
+  match args with
+  | [fsS, rootS, ign, _chunk] =>
+    match parseFSIO fsS, unhex rootS with
+    | some fs, some root =>
+      let ig := ign == "1"
+      let model := showResult15IO (parseFileIO Cfg.tree ig fs root)
+      let toks := impl.splitOn " "
+      let trace := toks.getLast?.getD "-"
+      let evs := if trace == "-" then [] else trace.splitOn ","
+      let opened : List String := (evs.filter (·.startsWith "o")).map fun e => (e.drop 1).toString
+      let readFails (n : String) : Bool := match fs.find? (fun e => hexOf e.1 == n) with
+        | some e => e.2.2.1
+        | none => false
+      let closeFails (n : String) : Bool := match fs.find? (fun e => hexOf e.1 == n) with
+        | some e => e.2.2.2
+        | none => false
+      let base : List (String × Bool) :=
+        [noCrash impl,
+         ("terminates_without_unbounded_recursion", impl != "DEPTH-EXCEEDED"),
+         ("every_opened_file_is_closed", traceBalanced trace)]
+      let io : List (String × Bool) :=
+        match toks with
+        | "ok" :: _ =>
+          [("read_failure_swallowed", opened.all fun n => !readFails n),
+           ("close_failure_swallowed", (opened.drop 1).all fun n => !closeFails n)]
+        | ["err", "Read", f, l, d, _] =>
+          [("read_error_is_returned_bare", f == "-" && l == "0" && d == "-"),
+           ("read_error_without_a_failing_reader", opened.any readFails)]
+        | ["err", "Close", f, l, d, _] =>
+          [("close_error_names_an_included_file_whose_close_fails", closeFails d && (opened.drop 1).contains d),
+           ("parse_error_names_the_file_and_the_1_based_line", lineIsInclude fs f l d)]
+        | _ => []
+      let plain : List (String × Bool) :=
+        match toks with
+        | "err" :: "Read" :: _ => []
+        | "err" :: "Close" :: _ => []
+        | _ =>
+          let v := c15 "walk" [eraseFSArg fsS, rootS, ign] impl
+          [(s!"as_walk_without_flags:{v.why}", v.prop != "PROP_FAIL")]
+      mk impl model (base ++ io ++ plain)
+    | _, _ => bad "fs"
+  | _ => bad "walkio-args"
+
+/-- all ops of C15 -/
+def c15x (op : String) (args : List String) (impl : String) : Verdict :=
+  if op == "walkio" then c15io args impl else c15 op args impl
 
 end RV.Driver
